@@ -559,8 +559,24 @@ def op_model(op: dict) -> dict:
             m = ir.serde.deserialize_model(proto)
             rs = op.get("rules", "default")
             if rs == "default_pass":
+                def _names(mm):
+                    ns = set()
+                    for g_ in (mm.graph, *mm.functions.values()):
+                        ns.update(v.name for v in g_.inputs if v.name)
+                        if hasattr(g_, "initializers"):
+                            ns.update(g_.initializers)
+                        for nd in S["ir"].traversal.RecursiveGraphIterator(g_):
+                            ns.update(v.name for v in nd.outputs if v.name)
+                    return ns
+
+                before = _names(m)
                 r = S["REWRITE"](m)
                 out = ser_ir(m) + b"|modified=%d" % int(bool(r.modified))
+                after = _names(m)
+                import re as _re
+
+                res["names_before"] = sorted(before)
+                res["new_val_names"] = sorted((n for n in after - before if _re.fullmatch(r"val_\d+", n)), key=lambda n: int(n[4:]))
             elif rs == "multi_domain":
                 # a replacement that introduces several NEW opset domains (TapeBuilder.used_opsets is a set)
                 doms = list(op["domains"])
